@@ -361,7 +361,22 @@ func (p Func) Obj() types.Object {
 }
 
 func (p Func) Doc() string {
-	return p.docs[p.Func].Text()
+	return docText(p.docs[p.Func])
+}
+
+// docText is CommentGroup.Text for groups that may contain a one-byte '#'
+// comment (go/ast's Text indexes the second byte of every comment).
+func docText(g *ast.CommentGroup) string {
+	if g == nil {
+		return ""
+	}
+	list := make([]*ast.Comment, 0, len(g.List))
+	for _, c := range g.List {
+		if len(c.Text) >= 2 {
+			list = append(list, c)
+		}
+	}
+	return (&ast.CommentGroup{List: list}).Text()
 }
 
 func CheckOverload(obj types.Object) (name string, fn *types.Func, ok bool) {
